@@ -26,6 +26,13 @@ class Opt:
         self.name, self.present, self.val = name, present, val
 
 
+class Bag:
+    """Result of a comprehension: [(guard, value)] - an element is present iff its guard holds."""
+
+    def __init__(self, items):
+        self.items = items
+
+
 class Sym:
     """A non-optional symbolic value: z3 Bool / Int / String / FP expression."""
 
@@ -63,8 +70,10 @@ class Interp:
             if z3.is_int(v):
                 return v != 0
             raise Unsupported("truthiness of %s" % v.sort())
-        if isinstance(v, (int, str)):
+        if isinstance(v, (int, str, tuple)):
             return z3.BoolVal(bool(v))
+        if isinstance(v, Bag):
+            return z3.Or([g for g, _ in v.items] + [z3.BoolVal(False)])
         raise Unsupported("truthiness of %r" % (v,))
 
     def is_none(self, v):
@@ -154,6 +163,14 @@ class Interp:
                 out.append(self.compare(op, left, right))
                 left = right
             return z3.And(out) if len(out) > 1 else out[0]
+        if isinstance(node, ast.BinOp):
+            return self.binop(node.op, self.ev(node.left, env), self.ev(node.right, env))
+        if isinstance(node, ast.IfExp):
+            c = self.truth(self.ev(node.test, env))
+            a, b = self.ev(node.body, env), self.ev(node.orelse, env)
+            return self.ite(c, a, b)
+        if isinstance(node, (ast.ListComp, ast.GeneratorExp)):
+            return self.comprehension(node, env)
         if isinstance(node, ast.Attribute):
             # self._x or module.CONST are not part of the guard fragment
             raise Unsupported("attribute access %s" % ast.dump(node)[:60])
@@ -193,10 +210,104 @@ class Interp:
             return self._num(sa, sb, lambda x, y: x >= y, z3.fpGEQ)
         raise Unsupported("comparison %s" % type(op).__name__)
 
+    def as_int(self, v):
+        if isinstance(v, Sym):
+            v = v.e
+        if isinstance(v, bool):
+            return z3.IntVal(1 if v else 0)
+        if isinstance(v, int):
+            return z3.IntVal(v)
+        if _is_z3(v) and z3.is_bool(v):
+            return z3.If(v, z3.IntVal(1), z3.IntVal(0))
+        if _is_z3(v) and z3.is_int(v):
+            return v
+        raise Unsupported("integer operand %r" % (v,))
+
+    def binop(self, op, a, b):
+        if isinstance(a, (int, bool)) and isinstance(b, (int, bool)) and not isinstance(op, (ast.Div,)):
+            import operator
+            table = {ast.Add: operator.add, ast.Sub: operator.sub, ast.Mult: operator.mul, ast.BitXor: operator.xor,
+                     ast.BitAnd: operator.and_, ast.BitOr: operator.or_}
+            if type(op) in table:
+                return table[type(op)](a, b)
+        sa = a.e if isinstance(a, Sym) else a
+        sb = b.e if isinstance(b, Sym) else b
+        both_bool = all(isinstance(x, bool) or (_is_z3(x) and z3.is_bool(x)) for x in (sa, sb))
+        if isinstance(op, (ast.BitXor, ast.BitAnd, ast.BitOr)):
+            if not both_bool:
+                raise Unsupported("bitwise operator on non-booleans")
+            ta, tb = self.truth(sa), self.truth(sb)
+            return {ast.BitXor: z3.Xor, ast.BitAnd: z3.And, ast.BitOr: z3.Or}[type(op)](ta, tb)
+        if isinstance(op, ast.Add):
+            return self.as_int(sa) + self.as_int(sb)
+        if isinstance(op, ast.Sub):
+            return self.as_int(sa) - self.as_int(sb)
+        if isinstance(op, ast.Mult):
+            if isinstance(sa, int) or isinstance(sb, int):
+                return self.as_int(sa) * self.as_int(sb)
+        raise Unsupported("binary operator %s" % type(op).__name__)
+
+    def ite(self, c, a, b):
+        if isinstance(a, Sym):
+            a = a.e
+        if isinstance(b, Sym):
+            b = b.e
+        if isinstance(a, bool) or isinstance(b, bool) or (_is_z3(a) and z3.is_bool(a)):
+            return z3.If(c, self.truth(a), self.truth(b))
+        return z3.If(c, self.as_int(a), self.as_int(b))
+
+    def comprehension(self, node, env):
+        """[elt for x in <tuple> if cond] -> python tuple of (guard, value) pairs flattened into a 'Bag'."""
+        if len(node.generators) != 1:
+            raise Unsupported("nested comprehension")
+        gen = node.generators[0]
+        it = self.ev(gen.iter, env)
+        if not isinstance(it, tuple) or not isinstance(gen.target, ast.Name):
+            raise Unsupported("comprehension over a non-tuple")
+        items = []
+        for v in it:
+            e2 = _clone(env)
+            e2[gen.target.id] = v
+            guard = z3.And([self.truth(self.ev(c, e2)) for c in gen.ifs] + [z3.BoolVal(True)])
+            items.append((guard, self.ev(node.elt, e2)))
+        return Bag(items)
+
+    def builtin(self, name, args):
+        if name == "len" and len(args) == 1:
+            a = args[0]
+            if isinstance(a, tuple):
+                return len(a)
+            if isinstance(a, Bag):
+                return z3.Sum([z3.If(g, 1, 0) for g, _ in a.items] + [z3.IntVal(0)])
+        if name == "sum" and len(args) == 1:
+            a = args[0]
+            if isinstance(a, tuple):
+                a = Bag([(z3.BoolVal(True), v) for v in a])
+            if isinstance(a, Bag):
+                return z3.Sum([z3.If(g, self.as_int(v), z3.IntVal(0)) for g, v in a.items] + [z3.IntVal(0)])
+        if name in ("any", "all") and len(args) == 1:
+            a = args[0]
+            if isinstance(a, tuple):
+                a = Bag([(z3.BoolVal(True), v) for v in a])
+            if isinstance(a, Bag):
+                if name == "any":
+                    return z3.Or([z3.And(g, self.truth(v)) for g, v in a.items] + [z3.BoolVal(False)])
+                return z3.And([z3.Implies(g, self.truth(v)) for g, v in a.items] + [z3.BoolVal(True)])
+        if name == "bool" and len(args) == 1:
+            return self.truth(args[0])
+        if name == "int" and len(args) == 1:
+            return self.as_int(args[0])
+        return NotImplemented
+
     # ---------------------------------------------------------------- calls
     def call(self, node, env, pc=None):
         f = node.func
         name = None
+        if isinstance(f, ast.Name) and f.id in ("len", "sum", "any", "all", "bool", "int") and not node.keywords:
+            r = self.builtin(f.id, [self.ev(a, env) for a in node.args])
+            if r is not NotImplemented:
+                return r
+            raise Unsupported("builtin %s on these operands" % f.id)
         if isinstance(f, ast.Name):
             name = f.id
         elif isinstance(f, ast.Attribute) and isinstance(f.value, ast.Name) and f.value.id in ("self", "Shaper"):
@@ -281,15 +392,19 @@ class Interp:
             return z3.BoolVal(False)
         if isinstance(st, ast.If):
             c = self.truth(self.ev(st.test, env))
-            env_t, env_f = dict(env), dict(env)
+            env_t, env_f = _clone(env), _clone(env)
             pc_t = self.exec_block(st.body, env_t, z3.And(pc, c))
             pc_f = self.exec_block(st.orelse, env_f, z3.And(pc, z3.Not(c)))
             for k in set(env_t) | set(env_f):
                 a, b = env_t.get(k), env_f.get(k)
                 if a is b:
                     env[k] = a
-                elif _is_z3(a) and _is_z3(b):
+                elif (a is None and isinstance(b, (Opt, Sym))) or (b is None and isinstance(a, (Opt, Sym))):
+                    env[k] = a if a is not None else b  # a lazily created parameter: same object on every path
+                elif _is_z3(a) and _is_z3(b) and a.sort() == b.sort():
                     env[k] = z3.If(c, a, b)
+                elif all(isinstance(x, bool) or (_is_z3(x) and z3.is_bool(x)) for x in (a, b)):
+                    env[k] = z3.If(c, self.truth(a), self.truth(b))
                 elif isinstance(a, int) and isinstance(b, int) or (_is_z3(a) and isinstance(b, int)) or (_is_z3(b) and isinstance(a, int)):
                     env[k] = z3.If(c, a if _is_z3(a) else z3.IntVal(a), b if _is_z3(b) else z3.IntVal(b))
                 else:
@@ -310,17 +425,8 @@ class Interp:
                 env[st.targets[0].id] = self.ev(st.value, env)
                 return pc
             raise Unsupported("assignment target")
-        if isinstance(st, ast.AugAssign) and isinstance(st.target, ast.Name) and isinstance(st.op, (ast.Add, ast.Sub)):
-            cur = env[st.target.id]
-            inc = self.ev(st.value, env)
-            if isinstance(cur, int) and isinstance(inc, int):
-                new = cur + inc if isinstance(st.op, ast.Add) else cur - inc
-            else:
-                ce = cur if _is_z3(cur) else z3.IntVal(cur)
-                ie = inc if _is_z3(inc) else z3.IntVal(inc)
-                new = ce + ie if isinstance(st.op, ast.Add) else ce - ie
-            # the statement executes only under pc; callers merge through ast.If, so inside a block pc is implied
-            env[st.target.id] = new
+        if isinstance(st, ast.AugAssign) and isinstance(st.target, ast.Name):
+            env[st.target.id] = self.binop(st.op, env[st.target.id], self.ev(st.value, env))
             return pc
         raise Unsupported("statement %s" % type(st).__name__)
 
@@ -332,6 +438,11 @@ class Interp:
 
     def raises_other(self):
         return z3.Or([p for p, c in self.raises if c != "ValueError"] + [z3.BoolVal(False)])
+
+
+def _clone(env):
+    c = getattr(env, "clone", None)
+    return c() if c is not None else dict(env)
 
 
 def function_ast(func):
